@@ -499,6 +499,11 @@ func runC12(r *Run) {
 	}
 	r.Knobs["plan_size"] = nops
 	r.Sample = &wl.prog
+	if g.Chance(40) {
+		// notifications are a per-term option: some terms run without them
+		wl.c.notifChooser = func(term int64) bool { return H(r.Seed, "notif-term", term)%100 < 55 }
+		r.Knobs["notifications"] = "per-term"
+	}
 	ok := wl.w.RunScript(wl.c.ctl, 4*time.Hour, func() {
 		if wl.c.node.startErr != nil {
 			wl.fail("start-error", "%v", wl.c.node.startErr)
